@@ -22,6 +22,8 @@ EXPLANATION = (
     "cons_egress/cons_ingress of the hop field that is pushed); (META-ends) source/destination are the first and last listed "
     "interface's AS; (COST-peer-once) the two directed edges of a peering link carry the extra link exactly once (towards_peer true "
     "leaving the AS, false arriving); (SEQ, shared with C19 DEPTH) at most three segments; (IDX-peer, shared with C19) peer index positions.")
+EXPLANATION_ADD5 = ' Round-5 additions: (LOOP-cover) has_loops reads a representative interface of every AS of the path — the adaptor chain between the interface list and its consumer is executed on model lists of 2..12 entries (iter/skip/step_by/chain) and must cover index 0 (source), the last index (destination) and one index of every transit pair; if it counts per AS the threshold is > 2; (KEY-eq) InputSegment::eq, the edge-map key equality, compares the wrapped PathSegment of both variants (the SegmentID covers neither timestamp nor peer entries).'
+EXPLANATION = EXPLANATION + EXPLANATION_ADD5
 RESIDUAL = [
     "soundness/completeness of the graph search against the SCION combination rules (which joins, shortcuts and peerings exist): values",
     "numeric correctness of weights; that the minimum over the named sources equals the true path MTU for every topology",
